@@ -7,6 +7,12 @@
 (* State                                                                   *)
 (*   m    function key -> value; DOMAIN m = the stored keys.  A set is the *)
 (*        map whose value under k is k itself.                             *)
+(*   held the other live objects of the same type (sequence of maps): the   *)
+(*        argument map of a put-all, the original of a wire round trip, an  *)
+(*        object made by another constructor call.  Calls are made on ONE   *)
+(*        object at a time (m, "the focus"); Swap changes which one.        *)
+(*   arrs the slices calls returned or were given, still in the caller's    *)
+(*        hands (sequence of sequences)                                     *)
 (*   cfg  the conventions of the concrete type (fixed during a history):   *)
 (*          t     name of the type (which shape its answers have)          *)
 (*          set   the type is a set                                        *)
@@ -41,8 +47,11 @@ EXTENDS Bytes, TLC
 
 DX == INSTANCE DataX WITH buf <- <<>>, written <- 0, prog <- <<>>, rpos <- 0, rd <- <<>>
 
-VARIABLES m, cfg
-vars == <<m, cfg>>
+VARIABLES m, cfg, held, arrs
+vars == <<m, cfg, held, arrs>>
+\* a call on the object under test leaves its configuration, every other live
+\* object and every slice in the caller's hands as they are
+Same == UNCHANGED <<cfg, held, arrs>>
 
 EmptyFn == [x \in {} |-> 0]
 Range(s) == {s[i] : i \in 1..Len(s)}
@@ -69,15 +78,15 @@ StoreVal(k, v) == IF cfg.set THEN k ELSE v
 
 \* ---- modifying calls -----------------------------------------------------
 Put(k, v) == /\ m' = IF Refused(k) THEN m ELSE Upd(m, k, StoreVal(k, v))
-             /\ UNCHANGED cfg
+             /\ Same
 \* add: the argument is added to the stored value; a new key stores it as given
 AddVal(k, v) == IF Present(k) THEN m[k] + v ELSE v
-Add(k, v) == m' = Upd(m, k, AddVal(k, v)) /\ UNCHANGED cfg
+Add(k, v) == m' = Upd(m, k, AddVal(k, v)) /\ Same
 \* add-if-exist never creates an entry
 AddIfExist(k, v) == /\ m' = IF Present(k) THEN Upd(m, k, m[k] + v) ELSE m
-                    /\ UNCHANGED cfg
-Remove(k) == m' = Del(m, k) /\ UNCHANGED cfg
-Clear == m' = EmptyFn /\ UNCHANGED cfg
+                    /\ Same
+Remove(k) == m' = Del(m, k) /\ Same
+Clear == m' = EmptyFn /\ Same
 
 \* put-all: the pairs <<ks[i], vs[i]>> are put one after the other (for a set
 \* only ks is used).  Closed form: the LAST pair naming a key decides.
@@ -88,7 +97,38 @@ PutAllFn(f, ks, vs) ==
                                             ELSE f[k]]
 PutAll(ks, vs) == /\ (cfg.set \/ Len(vs) = Len(ks))
                   /\ m' = PutAllFn(m, ks, vs)
-                  /\ UNCHANGED cfg
+                  /\ Same
+
+\* ---- several live objects -------------------------------------------------
+\* A mathematical map is a VALUE: whatever a call was given (another map, a
+\* slice) or returned (a slice, the map read back from the wire form) stays in
+\* the caller's hands as an independent value.  `held` are the other live
+\* objects of the same type over the same keys, m is the one calls are
+\* currently made on ("the focus"); a call on the focus changes no held object.
+\* a new empty object of the type (any constructor)
+NewObj == held' = Append(held, EmptyFn) /\ UNCHANGED <<m, cfg, arrs>>
+\* from now on calls are made on held object h; the former focus is held in its place
+Swap(h) == /\ h \in 1..Len(held)
+           /\ m' = held[h] /\ held' = [held EXCEPT ![h] = m]
+           /\ UNCHANGED <<cfg, arrs>>
+\* the entries of g put into f (keys are distinct: the order cannot matter)
+Merge(f, g) == [k \in DOMAIN f \cup DOMAIN g |-> IF k \in DOMAIN g THEN g[k] ELSE f[k]]
+\* put-all with held object h as the argument (h = 0: the focus itself); the
+\* argument is only read
+PutAllFrom(h) == /\ h \in 0..Len(held)
+                 /\ m' = Merge(m, IF h = 0 THEN m ELSE held[h])
+                 /\ Same
+\* an equal map becomes one more live object (the original of a wire round trip)
+Fork == held' = Append(held, m) /\ UNCHANGED <<m, cfg, arrs>>
+
+\* `arrs` are the slices a call returned or was given and that the caller still
+\* has: a later call on any object neither changes them nor is changed by what
+\* the caller writes into them
+ArrHold(seq) == arrs' = Append(arrs, seq) /\ UNCHANGED <<m, cfg, held>>
+ArrIs(a, seq) == a \in 1..Len(arrs) /\ seq = arrs[a]
+ArrWrite(a, seq) == /\ a \in 1..Len(arrs) /\ Len(seq) = Len(arrs[a])
+                    /\ arrs' = [arrs EXCEPT ![a] = seq]
+                    /\ UNCHANGED <<m, cfg, held>>
 
 \* every other call (lookups, membership, enumerations, rendering, sorting the
 \* table, writing the wire form, the wire round trip) leaves the map as it is
@@ -117,8 +157,9 @@ ValuesBagOK(seq) == /\ Len(seq) = Size
                     /\ \A v \in Range(seq) \cup {m[k] : k \in Stored} :
                           Count(seq, v) = Cardinality({k \in Stored : m[k] = v})
 \* two parallel sequences (keys, values) list every pair exactly once
-ProjOK(ks, vs) == /\ Len(ks) = Size /\ Len(vs) = Size
-                  /\ {<<ks[i], vs[i]>> : i \in 1..Len(ks)} = PairsOf(m)
+ProjOKOf(f, ks, vs) == /\ Len(ks) = Cardinality(DOMAIN f) /\ Len(vs) = Len(ks)
+                       /\ {<<ks[i], vs[i]>> : i \in 1..Len(ks)} = PairsOf(f)
+ProjOK(ks, vs) == ProjOKOf(m, ks, vs)
 
 \* ---- the wire form of the int-to-int map -------------------------------------
 \* decimal count, then per entry decimal key, decimal value (DataX "Decimal":
@@ -160,9 +201,10 @@ FromWire(pairs) == [k \in {pairs[i][1] : i \in 1..Len(pairs)} |->
                                pairs[i][1] = k /\ \A j \in (i + 1)..Len(pairs) : pairs[j][1] # k][2]]
 
 \* ---- the property as invariants --------------------------------------------
-SetOK    == cfg.set => \A k \in Stored : m[k] = k
-RefuseOK == cfg.rej => cfg.ek \notin Stored
+Live     == {m} \cup Range(held)
+SetOK    == cfg.set => \A f \in Live : \A k \in DOMAIN f : f[k] = k
+RefuseOK == cfg.rej => \A f \in Live : cfg.ek \notin DOMAIN f
 InvAll   == SetOK /\ RefuseOK
 
-InitWith(c) == m = EmptyFn /\ cfg = c
+InitWith(c) == m = EmptyFn /\ cfg = c /\ held = <<>> /\ arrs = <<>>
 =============================================================================
